@@ -158,6 +158,11 @@ var c06Invalid = []struct {
 		signDoc(env, d, "deb", "debsign")
 		d["deb"].(map[string]any)["signature"].(map[string]any)["type"] = "bogus"
 	}},
+	{"rpm-epoch-out-of-range", []string{"rpm"}, func(env *engine.Env, d fixture.Doc, f string) { d["epoch"] = "4294967296" }},
+	{"rpm-epoch-far-out-of-range", []string{"rpm"}, func(env *engine.Env, d fixture.Doc, f string) { d["epoch"] = "18446744073709551616" }},
+	{"rpm-epoch-negative", []string{"rpm"}, func(env *engine.Env, d fixture.Doc, f string) { d["epoch"] = "-1" }},
+	{"rpm-epoch-blank-padded", []string{"rpm"}, func(env *engine.Env, d fixture.Doc, f string) { d["epoch"] = " 1" }},
+	{"rpm-epoch-decimal-point", []string{"rpm"}, func(env *engine.Env, d fixture.Doc, f string) { d["epoch"] = "1.0" }},
 	{"key-id-not-hex", []string{"deb", "rpm"}, func(env *engine.Env, d fixture.Doc, f string) {
 		signDoc(env, d, f, map[string]string{"deb": "debsign", "rpm": "rpm"}[f])
 		d[f].(map[string]any)["signature"].(map[string]any)["key_id"] = "not-hex!"
@@ -312,6 +317,11 @@ func enumC06(env *engine.Env, yield func(any) bool) {
 			}
 		}
 	}
+	for _, typ := range []string{"bogus", "builder", "Origin", "origin ", "ORIGIN", " maint", "archive\n", "o"} {
+		if !yield(C06Case{Part: "signer-invalid", Format: "deb", Class: typ}) {
+			return
+		}
+	}
 	for _, f := range Formats {
 		for _, cls := range []string{"missing-source", "missing-script", "invalid-content-type", "invalid-compression", "dev-full", "dev-full-directory-target", "preexisting-target-missing-source", "preexisting-target-dev-full", "config-missing", "config-unknown-key"} {
 			if !yield(C06Case{Part: "cli", Format: f, Class: cls}) {
@@ -428,6 +438,23 @@ func checkC06(env *engine.Env, ci any) engine.Outcome {
 		out.Key = fmt.Sprintf("signer:%s:%s:%d:err=%v", f, c.Sign, c.J, err != nil)
 		if calls > c.J && err == nil {
 			viol("fault:signer-failure-swallowed:"+f+":"+c.Sign, "signing callback failed at call #%d but Package returned nil", c.J+1)
+		}
+	case "signer-invalid":
+		// a signing callback that works, with a signature type that is invalid: the setting is still invalid
+		d, _ := c06Doc(env, f, "", "")
+		d["deb"] = map[string]any{"signature": map[string]any{"type": c.Class}}
+		calls := 0
+		fn := func(r io.Reader) ([]byte, error) {
+			io.Copy(io.Discard, r)
+			calls++
+			return []byte("not-a-real-signature"), nil
+		}
+		var buf bytes.Buffer
+		err := c06Build(d.YAML(), f, &buf, fn)
+		out.Nontrivial = true
+		out.Key = fmt.Sprintf("signer-invalid:%s:%q:err=%v", f, c.Class, err != nil)
+		if err == nil {
+			viol("fault:invalid-setting-accepted:deb:signature-type-with-callback", "signature type %q is invalid, the signing callback was called %d time(s) and Package returned nil (%d bytes)", c.Class, calls, buf.Len())
 		}
 	case "cli":
 		checkC06CLI(env, c, &out, viol)
